@@ -427,7 +427,7 @@ class qutipEngine(quantumEngine):
         # Check whether there are in fact qubits to tensor up....
         if self.activeQubits == 0:
             self.qubitReg = qt
-        elif qt.shape[0] != 0:
+        elif activeQ != 0:
             self.qubitReg = qp.tensor(self.qubitReg, qt)
 
         self.activeQubits = newNum
